@@ -155,7 +155,22 @@ def run_impl(lines, release=False, case_timeout_ms=20000, timeout=3600, logging=
         else:
             results[ids[k]] = "abort rc=%s" % p.returncode
         todo = todo[k + 1:]
+    # `fsdump=1` cases: the object a failed raw decode left behind is dumped as `fst:<hex>`; every build's result
+    # carries the dump as length and CRC-32 only (what the model prints for the state it reads back), the dumps
+    # themselves are kept aside for the hand-over to the model
+    import zlib
+    dumps = {}
+    for cid, raw in list(results.items()):
+        if " fst:" in raw:
+            toks = raw.split(" ")
+            dumps[cid] = [t[4:] for t in toks if t.startswith("fst:")]
+            results[cid] = " ".join(("fst:%d:%08x" % (len(t[4:]) // 2, zlib.crc32(bytes.fromhex(t[4:])) & 0xFFFFFFFF))
+                                    if t.startswith("fst:") else t for t in toks)
+    FST_DUMPS[(bool(release), bool(logging))] = dumps
     return results
+
+
+FST_DUMPS = {}
 
 
 def strip_peak(r):
